@@ -22,6 +22,7 @@
                        leaf/node check on the normalised paths; the copy still uses the raw strings
      F21 [a52f9e0] [walk_files] / [export_zip_step]: a directory member for every empty directory;
                    [zip_copy_one]: a member whose name ends with '/' becomes a directory
+     relative schema [54d0555] [dir_schema_fn]: a relative schema string is always joined to the origin
      F20' [3224fe9] [export_paths]: a path that is the target itself ('' / '.') next to other jobs is refused
           [54a5f4b] [export_model]: the writers get the normalised path
 *)
@@ -261,8 +262,12 @@ Record oracle := {
   o_text : list (bool * json * str);     (* (true, list)  -> str(tuple(list))   (index keys)
                                             (false, list) -> format(list, '')   (format fields) *)
   o_parse : list (str * json);           (* json.loads of the state point files that occur *)
-  o_rel : bool                           (* the directory target is given as a relative path with a single
-                                            component ('exp', cwd = its parent) instead of an absolute path *)
+  o_rel : bool;                          (* the directory target is given as a relative path with a single
+                                            component ('exp', './exp', 'exp/'; cwd = its parent) instead of
+                                            an absolute path *)
+  o_origin : str                         (* how the directory ORIGIN of the import is spelled: [] = an
+                                            absolute path (stands as ROOT_STR), otherwise a relative
+                                            spelling such as 'exp', './exp', 'exp/', 'exp/../exp' *)
 }.
 
 Fixpoint ftab_get (t : list (fl * str)) (f : fl) : str :=
@@ -924,9 +929,14 @@ Definition dir_schema_fn (o : oracle) (sch : schemaspec) (src : fs) (rel : fpath
       do spd <- dir_read_sp o src p;
       consistency sp spd
   | SchStr text =>
-      let text' := if startswith text ROOT_STR then text else normpath (pjoin2 ROOT_STR text) in
+      (* root = the origin as the caller spelled it; os.walk yields join(root, ...) *)
+      let root := if is_empty (o_origin o) then ROOT_STR else o_origin o in
+      (* 54d0555: only an ABSOLUTE schema that starts with the absolute origin is kept as it is; a
+         relative schema is always joined to the origin (os.path.abspath(root) = ROOT_STR for every
+         spelling of the origin, which all denote the same directory) *)
+      let text' := if starts_slash text && startswith text ROOT_STR then text else normpath (pjoin2 root text) in
       do fields <- schema_compile text';
-      do sp <- parse_path fields (normpath (pjoin ROOT_STR rel));
+      do sp <- parse_path fields (normpath (pjoin root rel));
       do spd <- dir_read_sp o src p;
       consistency sp spd
   end.
